@@ -7,19 +7,20 @@ WT=/tmp/wt_$ID; SD=/tmp/seed_$ID/$K; OUT=/verif/seeded/$ID-$K
 export GOFLAGS=-mod=mod GOPROXY=off GOSUMDB=off GOTOOLCHAIN=local
 [ -f $SD/patch.diff ] || { echo "no patch $SD"; exit 2; }
 place=$(grep -m1 -o 'place in: *[^ ]*' $SD/demo_test.go | sed 's/place in: *//'); place=${place:-.}
+DF=$(jq -r '.demo_flags // ""' $SD/meta.json 2>/dev/null)   # e.g. "-tags purego" for changes that only exist in one build
 git -C $WT checkout -q -- . ; git -C $WT clean -fdq; find $WT -name "verif_*.go" -delete
 log=""
 run() { log="$log\n$ $*"; }
 # demo on clean tree must pass
 cp $SD/demo_test.go $WT/$place/zz_seed_demo_test.go
-(cd $WT/$place && timeout 600 go test -vet=off -count=1 -run 'Seed|Demo' . >/tmp/seed_clean_$ID.log 2>&1); clean_rc=$?
+(cd $WT/$place && timeout 600 go test $DF -vet=off -count=1 -run 'Seed|Demo' . >/tmp/seed_clean_$ID.log 2>&1); clean_rc=$?
 rm -f $WT/$place/zz_seed_demo_test.go
 # apply
 git -C $WT apply $SD/patch.diff || { echo "patch does not apply"; exit 2; }
 (cd $WT && timeout 900 go build ./... >/tmp/seed_build_$ID.log 2>&1); build_rc=$?
 (cd $WT && timeout 900 go test -vet=off -count=1 ./... >/tmp/seed_suite_$ID.log 2>&1); suite_rc=$?
 cp $SD/demo_test.go $WT/$place/zz_seed_demo_test.go
-(cd $WT/$place && timeout 600 go test -vet=off -count=1 -run 'Seed|Demo' . >/tmp/seed_patched_$ID.log 2>&1); patched_rc=$?
+(cd $WT/$place && timeout 600 go test $DF -vet=off -count=1 -run 'Seed|Demo' . >/tmp/seed_patched_$ID.log 2>&1); patched_rc=$?
 rm -f $WT/$place/zz_seed_demo_test.go
 git -C $WT checkout -q -- . ; git -C $WT clean -fdq; find $WT -name "verif_*.go" -delete
 echo "seed $ID-$K: demo_on_clean=$clean_rc build=$build_rc suite=$suite_rc demo_on_patched=$patched_rc (want 0 0 0 nonzero)"
